@@ -111,7 +111,8 @@ def run_sm(ctx, M, driver, fields, pred, n_hist, hist_len=(1, 30), weights=None,
             prev = snap
         all_snaps.append(snaps)
         ctx.sample({"ops": [M.to_request(o) for o in ops[:6]], "final": project(snaps[-1], fields) if snaps else None}, cap=2)
-    ctx.stats["histories"] = len(histories)
+    ctx.stats["histories"] += len(histories)
+    ctx.stats["histories:" + getattr(M, "NAME", "?")] += len(histories)
     if not model_ok:
         return [], histories
     # ---- model replay
